@@ -90,6 +90,14 @@ func (r *Run) Exec() (*Result, error) {
 			return nil, err
 		}
 	}
+	// modules that extend WireUniverse read the harness-drawn schemas from extra.ndjson (possibly none)
+	if _, ok := r.Files["extra.ndjson"]; !ok {
+		if _, err := os.Stat(filepath.Join(r.Scratch, "extra.ndjson")); err != nil {
+			if err := os.WriteFile(filepath.Join(r.Scratch, "extra.ndjson"), nil, 0o644); err != nil {
+				return nil, err
+			}
+		}
+	}
 	cfgPath := filepath.Join(r.Scratch, r.Module+"_run.cfg")
 	if err := os.WriteFile(cfgPath, []byte(r.Cfg), 0o644); err != nil {
 		return nil, err
